@@ -365,7 +365,7 @@ func (rep *reporter) validateProp(hs []*history, scratch string) (badHistories, 
 			sort.Strings(failed)
 			doc := h.doc(stepIdx + 1)
 			doc.Rules = b.Rules
-			detail := fmt.Sprintf("%s\ncache=%s cap=%d, request %d of history %s: %s\n  sent: %s %s%s\n  cache before: %s\n  real server: %s\n  C15 rules violated: %v (bound: an entry whose text does not hash to its key; hashonly/submit: executes a text never sent with that hash, or answers neither that text nor PersistedQueryNotFound; mismatch: text does not match hash yet not rejected / executed / cache changed; register: entry whose pair was never sent together; exec: executed text differs from the text handed on)",
+			detail := fmt.Sprintf("%s\ncache=%s cap=%d, request %d of history %s: %s\n  sent: %s %s%s\n  observed binding before (what the cache's Get / Add last showed it to bind): %s\n  real server: %s\n  C15 rules violated: %v (bound: the cache was shown to bind a hash to a text that does not hash to it; hashonly/submit: executes a text never sent with that hash, or answers neither that text nor PersistedQueryNotFound; mismatch: text does not match hash yet not rejected / executed / cache changed; register: binding whose pair was never sent together; exec: executed text differs from the text handed on)",
 				h.Mech, h.Rig.Kind, h.Rig.Cap, stepIdx+1, h.ID, mustJSON(st.Req), st.Wire.Method, st.Wire.Query, st.Wire.Body,
 				mustJSON(st.Got.Pre.Ents), mustJSON(st.Got), failed)
 			if st.Got.BoundEx != "" {
